@@ -30,7 +30,7 @@ def build_kinds(tier):
 
 
 def n_cases(tier):
-    return 160 if tier == "quick" else 12000
+    return 160 if tier == "quick" else 3000
 
 
 def timeout(tier):
